@@ -1131,9 +1131,12 @@ func init() {
 	fw.Register(fw.Spec[Case]{
 		ID: "C08",
 		Rule: "case kinds: (A) programs - " +
-			"6 fixed probe programs (macro argument evaluated and quoted; macro whose template binds v around comma-free nested calls, used at several sites " +
+			"10 fixed probe programs (macro argument evaluated and quoted; macro whose template binds v around comma-free nested calls, used at several sites " +
 			"and redefined; defun inside a let using its variable under a name the caller also uses and redefined; forward call with arguments; caller " +
-			"created between two redefinitions; lambda head with a bare outer variable), then seeded programs of 2-4 defuns (DAG calls, self recursion, mutual " +
+			"created between two redefinitions; lambda head with a bare outer variable; &key parameters that grow, are renamed, shrink and give way to &rest over " +
+			"6 redefinitions; &optional parameters added and removed and &rest added, with call sites inside ignore-errors that only some versions accept; " +
+			"redefinitions that change only init forms - literal, global changed by every call, variable of an enclosing let; a function that becomes a macro of " +
+			"the same call shape and a function again, run from code objects made after each change of kind), then seeded programs of 2-4 defuns (DAG calls, self recursion, mutual " +
 			"recursion on a decreasing counter; arguments, let/let*, if/cond/when/unless, and/or, setq, dotimes, funcall/apply, lambda forms, list building, trace " +
 			"markers, 0-3 global variables; one definition in three is written inside let / let* / nested lets and uses their variables, half of which are named " +
 			"like the parameters of callers; two programs in five also have 1-2 defmacros with backquote templates - comma, comma-at of a &rest body that " +
@@ -1143,10 +1146,18 @@ func init() {
 			"defuns) x 8 delivery modes (form by form, form by form compiled, whole Code evaluated, Code.Compile, CompileString - not for programs with a defun " +
 			"inside let -, (eval 'form), main form compiled before its callees exist, load of a file) x k=2..5 (one case in 12: up to 100) evaluations of the same " +
 			"code object, and under 4 redefinition histories (fresh / re-used, compiled / list-form main objects, 1-3 redefinitions with renamed parameters and " +
-			"changed enclosing lets, one step in three of them a macro redefinition; every second history redefines one function repeatedly); every name is fresh per treatment. One case in six has only " +
+			"changed enclosing lets, one step in three of them a macro redefinition; every second history redefines one function repeatedly; three redefinitions in eight are delivered through (eval 'form), CompileString or load of a file); " +
+			"in half of the programs with arguments three functions in five have a lambda-list part behind the required parameters that CHANGES from version to version: " +
+			"0-2 &optional parameters and/or &rest (added, removed, renamed), or &key parameters from a pool of 3-4 names (grow, shrink, rename, reorder, &rest added or " +
+			"removed, &rest alone), three parameters in four with an init form (literal, required parameter, variable of the enclosing let, global, marker); every call " +
+			"site (main form, callers' bodies, recursive calls, funcall/apply) fits every version - up to the smallest number of extra positional arguments, keyword pairs " +
+			"from the whole pool (slip documents that other keywords are allowed) - so the same sites run before and after each redefinition, and (list (ignore-errors call)) " +
+			"sites pass more positional arguments than some version takes (nil while rejected); the number of required parameters never changes; " +
+			"every name is fresh per treatment. One case in six has only " +
 			"parameterless functions (recursion on a global counter). (funcall f) without arguments is never generated (C04); 'x inside a backquote template is " +
-			"never generated (slip drops the quote, a reader matter), (quote x) is. Listed finding: programs with a macro that evaluates and quotes its argument " +
-			"(quoted-code=y, one macro in six). " +
+			"never generated (slip drops the quote, a reader matter), (quote x) is. Programs with a macro that evaluates and quotes its argument " +
+			"(one macro in six) are marked quoted-code=y (a repaired finding). &optional next to &key, &key without names, &aux and init forms that look at other " +
+			"optional/key parameters are never generated (C04 matters). " +
 			"(B) reeval, a model-free relation monitor over the forms that receive raw list arguments (enumerated at run time from FuncDoc kind / SkipEval; the ones " +
 			"without a committed argument template are counted as reeval-not-templated:<name>): a deterministic block (every template on leaf data, every ordered pair " +
 			"of templates) then seeded compositions of depth <= 3 with all arguments written as lists and all data bound inside the form; the same Code object " +
@@ -1159,7 +1170,7 @@ func init() {
 		Init:  initWorker,
 		Batch: 100,
 		Assumptions: []string{
-			"the reference evaluator (internal/c08/ref, no slip import) implements the CL meaning of the generated subset",
+			"the reference evaluator (internal/c08/ref, no slip import) implements the CL meaning of the generated subset; lambda lists per CLHS 3.4.1 with slip's documented dialect: with &key other keywords are allowed and ignored",
 			"treatments are isolated by fresh function and variable names per treatment",
 			"integers stay small (no overflow: C05) and programs have no free variables (scoping: C01)",
 		},
